@@ -7,6 +7,8 @@ From Muscle Require Import Gen.Consts Pat.Ere Pat.Translate Refl.Base Refl.Tree 
 Definition dump_fuel : nat := S (N.to_nat c_MUSCLE_MAX_NODE_DEPTH).
 (* the key parsing of DoTraversalAux as the sources at hand have it (finding F52) *)
 Definition uv_keep_as_is : bool := negb (N.eqb c_c05_uvkeys_as_found 1).
+(* ... and whether it looks up empty items (finding F63) *)
+Definition uv_empty_as_is : bool := negb (N.eqb c_c05_uvempty_as_found 1).
 Extraction "route_model.ml" rstep empty_rstate r_as_is r_all_fixed r_as_found dfs dump_fuel sv_tree sv_sessions rs_srv rs_info
   find_nodes find_sessions matcher_of session_dir fix_path matches_path owner_of
-  pat_ops uv_keep_as_is regex_supported.
+  pat_ops pat_ops_n uv_keep_as_is uv_empty_as_is regex_supported.
